@@ -93,9 +93,15 @@ class Repeat(Expression):
 
     def parse(self, state: ParserState, pairs: list[Pair]) -> bool:
         children: list[Pair] = []
+        first = True
 
         while True:
             state.checkpoint()
+            if not first:
+                # Trivia between iterations belongs to the next iteration. If there
+                # is no next iteration, it is given back along with the checkpoint.
+                state.parse_trivia(children)
+
             matched = self.expression.parse(state, children)
 
             if not matched:
@@ -105,7 +111,7 @@ class Repeat(Expression):
             state.ok()
             pairs.extend(children)
             children.clear()
-            state.parse_trivia(children)
+            first = False
 
         # Always succeed.
         return True
